@@ -37,6 +37,17 @@ class BaseTransform:
         self.xp = xp
         if is_torch_namespace(self.xp) and dtype is None:
             dtype = self.xp.get_default_dtype()
+        elif dtype is None and self.xp is not None:
+            # Fix the precision when the transform is built: bounds given
+            # as plain Python numbers would otherwise stay weakly typed
+            # (JAX) and a saved and reloaded transform would compute at
+            # another width than the one that was written
+            from array_api_extra import default_dtype
+
+            try:
+                dtype = default_dtype(self.xp)
+            except Exception:
+                dtype = None
         elif isinstance(dtype, str):
             from .utils import resolve_dtype
 
